@@ -100,6 +100,15 @@ Theorem C08_checker_sound_bound : forall c, 0 <= ns_nstart c -> forall t m m',
 Proof. exact ns_accepts_bound. Qed.
 Print Assumptions C08_checker_sound_bound.
 
+(* ... and, as long as the session is not disconnected, the first transmissions outside their
+   own coap_send happen in the order in which the messages were held, each held message at most
+   once and none skipped: held so far = released so far ++ still pending *)
+Theorem C08_checker_sound_fifo : forall c t m m', ns_mopen m = true -> ns_no_disconnect t ->
+  ns_mon_run c m t = Some m' ->
+  ns_mpend m ++ ns_held t = flat_map ns_rel_tx t ++ ns_mpend m' /\ ns_mopen m' = true.
+Proof. exact ns_accepts_fifo. Qed.
+Print Assumptions C08_checker_sound_fifo.
+
 (* the hypotheses are satisfiable by a non-trivial history *)
 Theorem C08_example :
   ns_wf ns_cfg_ex /\ NoDup (ns_sub_mids ns_evs_ex) /\
